@@ -133,6 +133,31 @@ def _check_case(i):
             pass
 
 
+def _miri_slice(rep, seed):
+    """parse::parse on a few hundred short texts under Miri (undefined-behaviour tripwire) + the usual oracle."""
+    from . import miri
+    rng = C.rng_for(seed, PID, 'miri')
+    texts = []
+    while len(texts) < 300:
+        kind, t = gen_text(rng, 'quick')
+        if len(t) <= 60:
+            texts.append(t)
+    data = ('\n'.join(noise.escape_record(t) for t in texts) + '\n').encode('utf-8')
+    st, out, err = miri.miri_run('hv_parse', [], data, timeout=1500)
+    if st == 'ub':
+        rep.violation('miri-ub', 'Miri reported undefined behaviour in the parser', {'stderr': C.clip(err, 3000)})
+        return {'miri_texts': len(texts)}
+    if st != 'ok':
+        rep.inconc('miri slice did not complete (%s): %s' % (st, C.clip(err[-300:], 300)))
+        return {'miri_texts': 0}
+    outs = out.decode('utf-8', 'replace').split('\n')
+    for idx, t in enumerate(texts):
+        exp, _ = expected_line(t)
+        if idx >= len(outs) or outs[idx] != exp:
+            rep.violation('miri-parse:' + C.sha(t), 'parse result differs under Miri', {'text': t, 'expected': C.clip(exp), 'observed': C.clip(outs[idx] if idx < len(outs) else '(none)')})
+    return {'miri_texts': len(texts), 'unsafe_occurrences_in_repo_src': miri.unsafe_occurrences()}
+
+
 def main(tier, seed):
     t0 = time.time()
     rep = C.Reporter(PID, tier, seed)
@@ -158,6 +183,9 @@ def main(tier, seed):
     nchk = 600 if tier == 'quick' else 20000
     for items in C.pmap(_check_case, list(range(nchk)), chunksize=8):
         rep.merge(items)
+    miri_info = {}
+    if tier == 'thorough':
+        miri_info = _miri_slice(rep, seed)
     cov = {
         'evaluations': n + nchk, 'distinct_nontrivial': keys,
         'rule': 'texts over a biased alphabet (command/start/end syllables, other Hangul incl. U+AC00/U+D7A3 and neighbours U+ABFF/U+D7A4, '
@@ -169,6 +197,7 @@ def main(tier, seed):
         'distinct_characters_exercised': len(chars), 'longest_text': maxlen,
         'check_binary_runs': nchk,
     }
+    cov.update(miri_info)
     assumptions = ['reference parser hv/refparse.py encodes the grammar as stated in the property',
                    'area chains bounded by 4096 operators (deeper nesting is outside the claim)',
                    'hv_parse catches a panic per record; a dead batch process is attributed to the first record without output']
